@@ -98,10 +98,11 @@ var CRSCopyrightYearRegex = regexp.MustCompile(`^(# Copyright \(c\) 2021-)(\d{4}
 
 // CRSYearSecRuleVerRegex matches the version in the SecRule part of the text, (e.g. ver:'OWASP_CRS/4.0.0')
 // setup example, and rule files.
-// The matched year will be captured in group 2.
-var CRSYearSecRuleVerRegex = regexp.MustCompile(`(ver:'OWASP_CRS/)(\d+\.\d+\.\d+(-[a-z0-9-]+)?)`)
+// The matched version will be captured in group 2. Any spelling the command accepts as a semantic version
+// (`v` prefix, two components, pre-release tags in either case, build metadata) must be found again by the next run.
+var CRSYearSecRuleVerRegex = regexp.MustCompile(`(ver:'OWASP_CRS/)([0-9A-Za-z.+-]+)`)
 
 // CRSVersionComponentSignatureRegex matches the version in the SecComponentSignature part of the text, (e.g. OWASP_CRS/4.0.0-rc1)
 // setup example, and rule files.
-// The matched year will be captured in group 2.
-var CRSVersionComponentSignatureRegex = regexp.MustCompile(`^(SecComponentSignature "OWASP_CRS/)(\d+\.\d+\.\d+(-[a-z0-9-]+)?)`)
+// The matched version will be captured in group 2 (same spellings as CRSYearSecRuleVerRegex).
+var CRSVersionComponentSignatureRegex = regexp.MustCompile(`^(SecComponentSignature "OWASP_CRS/)([0-9A-Za-z.+-]+)`)
